@@ -56,8 +56,10 @@ trait CommonThreadInfo {
 
         let status_path = path::PathBuf::from(format!("/proc/{}/status", tid));
         let status_file = std::fs::File::open(status_path)?;
-        for line in io::BufReader::new(status_file).lines() {
-            let l = line?;
+        // The `Name:` line holds the thread name, which is arbitrary bytes: read the file
+        // line by line as bytes, not as UTF-8 text.
+        for line in io::BufReader::new(status_file).split(b'\n') {
+            let l = String::from_utf8_lossy(&line?).into_owned();
             let start = l
                 .get(0..6)
                 .ok_or_else(|| ThreadInfoError::InvalidProcStatusFile(tid, l.clone()))?;
